@@ -4,10 +4,10 @@ from __future__ import annotations
 import ast
 
 from .. import oracles as O
-from ..facts import FuncFacts
+from ..facts import FuncFacts, assigned_targets
 from ..fold import Folder, PackerVal, Scope, StructVal, Unfoldable, dotted, src
 from ..loader import AnalysisError
-from .common import ctx, range_constraints, handler_always_raises
+from .common import ctx, handler_always_raises, own_nodes, range_constraints
 
 DT = "canopen/objectdictionary/datatypes.py"
 OD = "canopen/objectdictionary/__init__.py"
@@ -150,6 +150,20 @@ def run(chk):
             else:
                 chk.unk("R4", f"{OD}:ODVariable.{fname}", f"{OD}:{f.node.lineno}", f"no {callname}() call found")
 
+    # the value handed to the packer is the caller's value (integers: int(value)); no other rewriting on the way
+    f = repo.func(OD, "ODVariable.encode_raw", "C04.R4")
+    fenc = FuncFacts(repo, folder, f, "C04.R4")
+    vparam = f.params[1]
+    for n in own_nodes(f.node):
+        if isinstance(n, (ast.Assign, ast.AugAssign)) and vparam in assigned_targets(n):
+            g = [(fenc.norm(e, subst=False), p) for e, p in fenc.facts_at(n)]
+            ok = isinstance(n, ast.Assign) and src(n.value) == f"int({vparam})" and any(p and t == "self.data_type in INTEGER_TYPES" for t, p in g)
+            chk.check(ok, "R4", f"{OD}:ODVariable.encode_raw | `{src(n)[:40]}`", f.loc(n),
+                      f"the value is rewritten before it is packed (`{src(n)}` under {g}): only int(value) for integer types keeps the encoding exact "
+                      f"(truthiness idioms lose -0.0, None becomes a number)")
+    for c in [c for c in ast.walk(f.node) if isinstance(c, ast.Call) and isinstance(c.func, ast.Attribute) and c.func.attr == "pack"]:
+        chk.check([src(a) for a in c.args] == [vparam] and not c.keywords, "R4", f"{OD}:ODVariable.encode_raw | packs the value itself", f.loc(c), src(c))
+
     # ---------------------------------------------------------------- R5 __len__
     f = repo.func(OD, "ODVariable.__len__", "C04.R5")
     chk.saw(f)
@@ -225,6 +239,34 @@ def _packer(chk, repo, folder: Folder, cls, signed: bool):
         raise AnalysisError("C04.R3", f"{name} lacks one of __init__/pack/unpack/size")
     for f in (init, pack, unpack, size):
         chk.saw(f)
+    # (0) the packer objects live in the class-level table STRUCT_TYPES and are shared by every variable of every node:
+    #     nothing but the constructor may keep state on them
+    from . import shared as _sh
+    stateless = True
+    for mname, meth in cls.methods.items():
+        if mname == "__init__":
+            continue
+        for n in own_nodes(meth.node):
+            tg = []
+            if isinstance(n, (ast.Assign, ast.Delete)):
+                tg = n.targets
+            elif isinstance(n, (ast.AugAssign, ast.AnnAssign)):
+                tg = [n.target]
+            for t in tg:
+                base = t.value if isinstance(t, ast.Subscript) else t
+                if isinstance(base, ast.Attribute) and dotted(base.value) == "self":
+                    stateless = False
+                    chk.bad("R3", f"{DT}:{name}.{mname} | shared codec object keeps no state", meth.loc(n),
+                            f"`{src(n)[:70]}` writes to the packer itself; the instance is shared through ODVariable.STRUCT_TYPES, so one decode/encode changes what the next one (of any variable, on any thread) sees")
+            if isinstance(n, ast.Call) and isinstance(n.func, ast.Attribute) and n.func.attr in (_sh.MUTATORS | _sh.BUFFER_SINKS):
+                recv = n.func.value
+                args = list(n.args[:2]) if n.func.attr in _sh.BUFFER_SINKS else [recv]
+                for a in args:
+                    if isinstance(a, ast.Attribute) and dotted(a.value) == "self":
+                        stateless = False
+                        chk.bad("R3", f"{DT}:{name}.{mname} | shared codec object keeps no state", meth.loc(n), f"`{src(n)[:70]}` mutates state of the shared packer")
+    if stateless:
+        chk.ok("R3", f"{DT}:{name} | shared codec object keeps no state", where0)
     # (a) constructor threshold chain, partially evaluated per width
     wide = {}
     for w in (8, 16, 24, 32, 40, 48, 56, 64):
